@@ -334,6 +334,9 @@ pub struct BCfg {
     pub f18_open: bool,
     #[serde(default)]
     pub f16_open: bool,
+    /// build the filter incrementally: parse the static part, `add_directive` the span-scoped one
+    #[serde(default)]
+    pub via_add: bool,
 }
 
 #[derive(Clone, Debug, Serialize, Deserialize, Default)]
@@ -439,10 +442,21 @@ struct MSpan {
     visible: bool,
     /// the value at the moment it was entered (what the pinned implementation uses)
     value_at_enter: String,
+    /// a matching value has been recorded at some point (a later, different value does not
+    /// un-match the span: the property does not say it should, the filter keeps the match)
+    matched_ever: bool,
+    /// `matched_ever` as of the last time the span was entered
+    matched_at_enter: bool,
 }
 
 fn b_run_history(cfg: &BCfg, history: &[String]) -> (String, Vec<String>, Vec<String>, Vec<String>) {
-    let filter = EnvFilter::new(&cfg.directives);
+    // `via_add`: the static part is parsed, the span-scoped directive is added afterwards
+    let filter = if cfg.via_add {
+        let (first, rest) = cfg.directives.split_once(',').expect("two directives");
+        EnvFilter::new(first).add_directive(rest.parse().expect("directive"))
+    } else {
+        EnvFilter::new(&cfg.directives)
+    };
     let d = Dispatch::new(Registry::default().with(filter).with(FL { id: 1 }));
     let spans = bspans();
     let events = b_events();
@@ -463,8 +477,9 @@ fn b_run_history(cfg: &BCfg, history: &[String]) -> (String, Vec<String>, Vec<St
         let cares = |s: &BSpan| -> bool {
             cfg.dyn_name.as_ref().map_or(true, |n| n == s.name) && cfg.dyn_target.as_ref().map_or(true, |t| s.target.starts_with(t.as_str()))
         };
-        let matches_now = |m: &MSpan| -> bool { m.cared && m.visible && cfg.dyn_value.as_ref().map_or(true, |v| value_matches(v, &m.value)) };
-        let matched_at_enter = |m: &MSpan| -> bool { m.cared && m.visible && cfg.dyn_value.as_ref().map_or(true, |v| value_matches(v, &m.value_at_enter)) };
+        let matches_now = |m: &MSpan| -> bool { m.cared && m.visible && m.matched_ever };
+        let matched_at_enter = |m: &MSpan| -> bool { m.cared && m.visible && m.matched_at_enter };
+        let value_ok = |v: &str| -> bool { cfg.dyn_value.as_ref().map_or(true, |want| value_matches(want, v)) };
         for (step, op) in hist.iter().enumerate() {
             let p: Vec<&str> = op.split(':').collect();
             let n0 = stack::flog_len();
@@ -526,7 +541,8 @@ fn b_run_history(cfg: &BCfg, history: &[String]) -> (String, Vec<String>, Vec<St
                         }
                     }
                     let cared = if got && tracked_any_level { true } else { cared };
-                    let m = MSpan { idx: i, value: v.to_string(), cared, visible, value_at_enter: v.to_string() };
+                    let ok = value_ok(v);
+                    let m = MSpan { idx: i, value: v.to_string(), cared, visible, value_at_enter: v.to_string(), matched_ever: ok, matched_at_enter: ok };
                     open.push((sp.entered(), m));
                 }
                 "rec" => {
@@ -535,11 +551,22 @@ fn b_run_history(cfg: &BCfg, history: &[String]) -> (String, Vec<String>, Vec<St
                         rec(s, v);
                         if m.visible {
                             m.value = v.to_string();
+                            m.matched_ever |= value_ok(v);
                         }
                     }
                 }
                 "close" => {
                     drop(open.pop());
+                }
+                "reenter" => {
+                    // exit the innermost span and enter it again (its recorded values count from now on
+                    // even under F18)
+                    if let Some((e, mut m)) = open.pop() {
+                        let sp = e.exit();
+                        m.value_at_enter = m.value.clone();
+                        m.matched_at_enter = m.matched_ever;
+                        open.push((sp.entered(), m));
+                    }
                 }
                 _ => panic!("bad op"),
             }
@@ -547,7 +574,7 @@ fn b_run_history(cfg: &BCfg, history: &[String]) -> (String, Vec<String>, Vec<St
                 break;
             }
         }
-        let key = format!("{:?}", open.iter().map(|(_, m)| (m.idx, m.value.clone(), m.value_at_enter.clone(), m.visible)).collect::<Vec<_>>());
+        let key = format!("{:?}", open.iter().map(|(_, m)| (m.idx, m.value.clone(), m.value_at_enter.clone(), m.visible, m.matched_ever, m.matched_at_enter)).collect::<Vec<_>>());
         let mut next = vec![];
         for i in 0..events.len() {
             next.push(format!("ev:{}", i));
@@ -561,6 +588,7 @@ fn b_run_history(cfg: &BCfg, history: &[String]) -> (String, Vec<String>, Vec<St
         }
         if !open.is_empty() {
             next.push("close".to_string());
+            next.push("reenter".to_string());
             for v in &VALUES[1..] {
                 next.push(format!("rec:{}", v));
             }
@@ -633,8 +661,9 @@ pub fn b_configs(depth: usize, f18_open: bool) -> Vec<BCfg> {
         depth,
         f18_open,
         f16_open: false,
+        via_add: false,
     };
-    vec![
+    let v = vec![
         mk("[sp]=debug", None, Some("sp"), None, None, 4, None),
         mk("warn,[sp]=trace", None, Some("sp"), None, None, 5, Some(2)),
         mk("a[sp]=debug", Some("a"), Some("sp"), None, None, 4, None),
@@ -643,7 +672,11 @@ pub fn b_configs(depth: usize, f18_open: bool) -> Vec<BCfg> {
         mk("info,[{k=true}]=trace", None, None, Some("k"), Some("true"), 5, Some(3)),
         mk("[sp{k=v}]=trace", None, Some("sp"), Some("k"), Some("v"), 5, None),
         mk("error,[{k=v.*}]=debug", None, None, Some("k"), Some("v.*"), 4, Some(1)),
-    ]
+    ];
+    let mut v = v;
+    let added: Vec<BCfg> = v.iter().filter(|c| c.static_default.is_some()).map(|c| BCfg { via_add: true, ..c.clone() }).collect();
+    v.extend(added);
+    v
 }
 
 pub fn run(args: &Args) -> i32 {
